@@ -38,3 +38,38 @@ func TestC08Shapes(t *testing.T) {
 }
 
 func TestC09(t *testing.T) { core.Run(t, P09) }
+
+func TestC10Strings(t *testing.T) { core.Run(t, P10s) }
+func TestC10Derive(t *testing.T)  { core.Run(t, P10d) }
+
+// TestC10Tables: every code point and byte against the standard's tables, and every ASCII code
+// point through every component of the parser (exhaustive; shard 0 only).
+func TestC10Tables(t *testing.T) {
+	if os.Getenv("VERIF_SHARD") != "" && os.Getenv("VERIF_SHARD") != "0" {
+		t.Skip("enumerations run in shard 0")
+	}
+	core.SetRule("C10.tables", "exhaustive: all 0x110000 code points (surrogates skipped) and all 256 bytes x the six named sets of the statement against tables written from the standard's definitions")
+	n, msg := Tables10()
+	if msg != "" {
+		core.ReportViolation("C10.tables", msg, map[string]string{"note": "enumeration failure; rerun TestC10Tables"})
+		t.Fatal(msg)
+	}
+	core.AddEvaluations("C10.tables", n, n, true, map[string]string{"example": "FragmentPercentEncodeSet.RuneShouldBeEncoded('`') == true"})
+	core.SetRule("C10.components", "exhaustive: every ASCII code point placed in every component (userinfo, path, opaque path, opaque host, query, fragment) of special and non-special URL templates, compared with the reference model's parse")
+	n, msg = Components10()
+	if msg != "" {
+		core.ReportViolation("C10.components", msg, map[string]string{"note": "enumeration failure; rerun TestC10Tables"})
+		t.Fatal(msg)
+	}
+	core.AddEvaluations("C10.components", n, n, true, map[string]string{"example": "http://h/?' -> http://h/?%27 but foo://h/?' -> foo://h/?'"})
+	if msg := namedSetsUnchanged(); msg != "" {
+		core.ReportViolation("C10.tables", msg, map[string]string{})
+		t.Fatal(msg)
+	}
+}
+
+func TestC11(t *testing.T) { core.Run(t, P11) }
+
+func TestC12(t *testing.T) { core.Run(t, P12) }
+
+func TestC13(t *testing.T) { core.Run(t, P13) }
